@@ -27,8 +27,9 @@ CFG = {
     "level_text": "Proved over the hand model of handleSequence/parseMouseEvent and the LTS of the input goroutine, event queue, reply "
                   "channels and requesters: mouse_exact, handle_total, replies_internal, events_exact, never_wedges (unconditional: every "
                   "reachable state, any requester activity), flow_preserved / input_never_lost (any schedule and queue capacity), "
-                  "input_never_lost_any_requester (also with CursorPosition calls and time-outs at any moment, for streams whose keys are "
-                  "not CSI..R), flag_lowered_only_by, and for the colour requesters query_reply_parsed / exact_8bit / "
+                  "input_never_lost_any_requester / input_never_lost_with_cpr (also with CursorPosition calls, answers and time-outs at any "
+                  "moment and CSI..R sequences anywhere in the stream: everything but the keys sharing that encoding is delivered exactly "
+                  "once, in order), flag_lowered_only_by, and for the colour requesters query_reply_parsed / exact_8bit / "
                   "exact_16bit_repeated / rejected over a model of their Sscanf parse. Tied to the source by Gen/Caps.lean (switch "
                   "skeleton, send kinds, guards, channel capacities, CursorPosition and Query* statement lists, the atomic take of the "
                   "request flag) and by correspondence on direct, end-to-end, query, race (yield point) and colour-query cases.",
